@@ -1,6 +1,8 @@
 package loadbalancer
 
 import (
+	"net/http"
+
 	"github.com/0xReLogic/Helios/internal/config"
 	"github.com/0xReLogic/Helios/internal/verifrt"
 )
@@ -105,6 +107,43 @@ func VerifC11History(k int) {
 			}
 		}
 		check()
+	}
+}
+
+// VerifC11RemoveAfterTraffic: under every strategy, with three backends that
+// have all been serving two clients for a while: remove the backend that served
+// a client's last request; from then on no request of either client is served
+// by it, and every request is served by a listed backend - whatever per-client
+// or per-backend state the strategy keeps.
+func VerifC11RemoveAfterTraffic(strategy int) {
+	lb := verifBareLB(strategy)
+	for i := 0; i < 3; i++ {
+		lb.AddBackend(config.BackendConfig{Name: verifNames[i], Address: "http://" + verifNames[i] + ":80", Weight: 1 + i})
+	}
+	r1 := verifRequest("10.1.2.3:4711")
+	r2 := verifRequest("10.9.8.7:4711")
+	r2.Header.Set("X-Forwarded-For", "203.0.113.77")
+	warm := verifrt.Choice("requestsBefore", 3) + 1
+	var last *Backend
+	for i := 0; i < warm; i++ {
+		lb.findHealthyBackend(r2)
+		last = lb.findHealthyBackend(r1)
+	}
+	verifrt.Assert(last != nil, "a configured healthy backend serves")
+	gone := last.Name
+	lb.RemoveBackend(gone)
+	for i := 0; i < 4; i++ {
+		for _, r := range []*http.Request{r1, r2} {
+			b := lb.findHealthyBackend(r)
+			verifrt.Assert(b != nil && b.Name != gone, "once remove returns no backend of that name receives new requests (after real traffic, every strategy)")
+			listed := false
+			for _, in := range lb.ListBackends() {
+				if b != nil && in.Name == b.Name {
+					listed = true
+				}
+			}
+			verifrt.Assert(listed, "requests are served only by listed backends")
+		}
 	}
 }
 
